@@ -37,6 +37,12 @@ def render_item(it, gapdir=None):
     a, b, c, t, n = it['a'], it['b'], it['c'], it['t'], it['n']
     if k == 'lab':
         return t + ':'
+    if k == 'const':
+        return '%s = %d' % (t, n)
+    if k == 'brk':
+        return '%s %s, %s, %s' % (m, reg(a), reg(b), t)
+    if k == 'jalk':
+        return 'jal %s, %s' % (reg(a), t)
     if k == 'ins':
         sig = enc.SIG[m]
         ops = [a, b, c][:len(sig)]
@@ -119,7 +125,7 @@ def rle(data):
     return out
 
 
-INSTR_KINDS = {'ins', 'pins', 'br', 'jal', 'pbr', 'pj', 'li', 'lil', 'imml'}
+INSTR_KINDS = {'ins', 'pins', 'br', 'jal', 'pbr', 'pj', 'li', 'lil', 'imml', 'brk', 'jalk'}
 
 
 def observe(prog, src, compress):
@@ -170,7 +176,7 @@ def run_programs(args):
     return out
 
 
-def validate(records, scratch, run=None, shard=1500, module='LayoutTrace', parts=3):
+def validate(records, scratch, run=None, shard=1500, module='LayoutTrace', parts=3, drift=None):
     """TLC judges every record; returns {record index: (nc fails, c fails, relational fails)} for the bad ones."""
     jobs, files = [], []
     for k in range(0, len(records), shard):
@@ -179,7 +185,7 @@ def validate(records, scratch, run=None, shard=1500, module='LayoutTrace', parts
             json.dump([{'prog': r['prog'], 'nc': _strip(r['nc']), 'c': _strip(r['c'])} for r in records[k:k + shard]],
                       f, separators=(',', ':'))
         files.append((k, p))
-        jobs.append(dict(module=module, env={'RECS_FILE': p}, workers=1, scratch=scratch, timeout=3600, heap='3g'))
+        jobs.append(dict(module=module, env={'RECS_FILE': p, 'DRIFT': '1' if drift is not None else '0'}, workers=1, scratch=scratch, timeout=3600, heap='3g'))
     bad = {}
     for (k, p), r in zip(files, tlc.run_many(jobs)):
         n = min(shard, len(records) - k)
@@ -190,6 +196,8 @@ def validate(records, scratch, run=None, shard=1500, module='LayoutTrace', parts
         for v in r.printed():
             if v and v[0] == 'BAD':
                 bad[k + v[1] - 1] = tuple([tuple(x) for x in part['set']] for part in v[2:2 + parts])
+            elif v and v[0] == 'DRIFT' and drift is not None:
+                drift[k + v[1] - 1] = (sorted(v[2]['set']), sorted(v[3]['set']))
         os.unlink(p)
     return bad
 
@@ -227,8 +235,8 @@ def assemble_all(progs, scratch, procs=16, chunk=400):
 def random_programs(alpha, rng, count, minlen, maxlen):
     """Larger programs over the same alphabet (well-formedness is re-established by construction)."""
     progs = []
-    labs = [x for x in alpha if x['k'] == 'lab']
-    others = [x for x in alpha if x['k'] != 'lab']
+    labs = [x for x in alpha if x['k'] in ('lab', 'const')]
+    others = [x for x in alpha if x['k'] not in ('lab', 'const')]
     for _ in range(count):
         n = rng.randrange(minlen, maxlen + 1)
         body = [dict(rng.choice(others)) for _ in range(n)]
@@ -240,10 +248,13 @@ def random_programs(alpha, rng, count, minlen, maxlen):
                 if ngap > 1:
                     continue
             keep.append(it)
-        names = sorted({x['t'] for x in labs})
+        names = sorted({x['t'] for x in labs if x['k'] == 'lab'})
         pos = sorted(rng.randrange(0, len(keep) + 1) for _ in names)
         for name, p in reversed(list(zip(names, pos))):
             keep.insert(p, dict([x for x in labs if x['t'] == name][0]))
+        for x in labs:
+            if x['k'] == 'const':
+                keep.insert(0, dict(x))       # constants are defined before any use
         progs.append(keep)
     return progs
 
